@@ -273,6 +273,10 @@ func (d *Data) handleProximity(ctx *datastore.VersionedCtx, w http.ResponseWrite
 		defer server.ThrottledOpDone()
 	}
 
+	if len(parts) < 6 {
+		server.BadRequest(w, r, "DVID requires two label IDs to follow 'proximity' command")
+		return
+	}
 	label1, err := strconv.ParseUint(parts[4], 10, 64)
 	if err != nil {
 		server.BadRequest(w, r, err)
@@ -346,6 +350,10 @@ func (d *Data) handleIndex(ctx *datastore.VersionedCtx, w http.ResponseWriter, r
 		}
 	}
 
+	if len(parts) < 5 {
+		server.BadRequest(w, r, "DVID requires label ID to follow 'index' command")
+		return
+	}
 	label, err := strconv.ParseUint(parts[4], 10, 64)
 	if err != nil {
 		server.BadRequest(w, r, err)
@@ -728,6 +736,10 @@ func (d *Data) handleMutationsRange(ctx *datastore.VersionedCtx, w http.Response
 		return
 	}
 
+	if len(parts) < 6 {
+		server.BadRequest(w, r, "DVID requires beginning and end of the range to follow 'mutations-range' command")
+		return
+	}
 	rangefmt := queryStrings.Get("rangefmt")
 	switch rangefmt {
 	default:
